@@ -30,7 +30,8 @@ fn gen_seg(t: &tables::Tables, rng: &mut Rng) -> Segment {
             let node = NODES7[ni];
             match s.get_node(node) { Some(n) => s.set_feat(node, mask, n & mask == 0), None => s.set_feat(node, mask, true) }
         }
-        if s.get_as_grapheme().is_some() { return s; }
+        // mostly segments that can be spelled; now and then one that cannot (its word must then carry the replacement character)
+        if s.get_as_grapheme().is_some() || rng.chance(1, 3) { return s; }
     }
     t.cards[rng.below(t.cards.len())].1
 }
@@ -50,13 +51,27 @@ fn apply_payload(s: &mut Segment, pay: &[(bool, usize, bool)]) {
     for (is_node, i, pos) in pay { if !*is_node { let (ni, mask, _) = FEATS[*i]; s.set_feat(NODES7[ni], mask, *pos); } }
 }
 
-pub fn record_c09(out: &str, n: usize) {
+pub fn record_c09(out: &str, n: usize, rules_files: &[String]) {
     let t = tables::load();
     let seed = env_u64("VERIF_SEED", 1);
     let mut rng = Rng::new(seed ^ 0x0909);
     let mut w = Writer::new(out);
     let mut sum = Summary::default();
     let al = v::no_aliases();
+    let mut judge = |word: &v::Word, origin: Value, w: &mut Writer, sum: &mut Summary| {
+        let text = v::render_word(word, &al);
+        let ok = !text.contains('\u{FFFD}');
+        let back = v::parse_word(&text, &al);
+        let fixed = match asca::run(&[], &[text.clone()], &[], &[]) { Ok(o) => o.len() == 1 && o[0] == text, Err(_) => false };
+        // signature of C09-KF1, evaluated on the vector: some segment's rendering begins with a longer cardinal grapheme than the one it was built from
+        let collides = kf1_collides(word, &t);
+        let joins = kf2_joins(word, &t);
+        sum.vectors += 1; if ok { sum.nontrivial += 1; }
+        let b = match &back { Ok(bw) => w_compact(bw, false), Err(e) => json!({"err": err_key(e)}) };
+        w.put(json!({"ok": ok, "w": w_compact(word, false), "b": b, "fix": fixed}),
+              json!({"text": text, "origin": origin, "back": match &back { Ok(bw) => v::render_word(bw, &al), Err(e) => err_key(e) }, "kf": if collides { "C09-KF1" } else if joins { "C09-KF2" } else { "" }}));
+        if sum.samples.len() < 5 { sum.sample(|| json!({"text": text, "renderable": ok})); }
+    };
     for _ in 0..n {
         let nsyl = 1 + rng.below(3);
         let mut sylls = Vec::new();
@@ -72,18 +87,27 @@ pub fn record_c09(out: &str, n: usize) {
             sylls.push((segs, rng.below(3) as u8, tone));
         }
         let word = v::make_word(&sylls, false);
-        let text = v::render_word(&word, &al);
-        let ok = !text.contains('\u{FFFD}');
-        let back = v::parse_word(&text, &al);
-        let fixed = match asca::run(&[], &[text.clone()], &[], &[]) { Ok(o) => o.len() == 1 && o[0] == text, Err(_) => false };
-        // signature of C09-KF1, evaluated on the vector: some segment's rendering begins with a longer cardinal grapheme than the one it was built from
-        let collides = kf1_collides(&word, &t);
-        let joins = kf2_joins(&word, &t);
-        sum.vectors += 1; if ok { sum.nontrivial += 1; }
-        let b = match &back { Ok(bw) => w_compact(bw, false), Err(e) => json!({"err": err_key(e)}) };
-        w.put(json!({"ok": ok, "w": w_compact(&word, false), "b": b, "fix": fixed}),
-              json!({"text": text, "back": match &back { Ok(bw) => v::render_word(bw, &al), Err(e) => err_key(e) }, "kf": if collides { "C09-KF1" } else if joins { "C09-KF2" } else { "" }}));
-        if sum.samples.len() < 5 { sum.sample(|| json!({"text": text, "renderable": ok})); }
+        judge(&word, json!("assembled"), &mut w, &mut sum);
+    }
+    // "the output of any run": words that rules of the generated grammar produce (whatever they write - features, length, stress, tone, boundaries - must survive the text)
+    for rf in rules_files {
+        let asts = crate::laws::read_asts(rf);
+        let mut seen = std::collections::HashSet::new();
+        for a in &asts {
+            let text = crate::rules::rule_text(&a["rule"], &t);
+            let mut r2 = Rng::new(seed.wrapping_mul(977).wrapping_add(a["seed"].as_u64().unwrap_or(0)));
+            for _ in 0..3 {
+                let wt = crate::laws::gen_word_text(&mut r2, true);
+                let Ok(word) = v::parse_word(&wt, &al) else { continue };
+                let o = crate::laws::run_rules(&[text.clone()], &word, 20_000, false);
+                if o.out != "ok" { sum.count("rule_outcome_not_ok (C02's domain when it is no error value)", 1); continue; }
+                let after = o.steps.last().map(|s| s.word.clone()).unwrap_or(word.clone());
+                if after == word || after.syllables.is_empty() { continue; }
+                if !seen.insert(w_compact(&after, false).to_string()) { continue; }
+                sum.count("rule_outputs", 1);
+                judge(&after, json!({"rule": text, "word": wt}), &mut w, &mut sum);
+            }
+        }
     }
     sum.agree = sum.vectors;
     sum.count("records", w.n);
